@@ -34,6 +34,10 @@ def junk_items(rng, spa):
         ("misaddressed-statp", frame(b"SPA99:99:99:99:99:99", cid, b"STATP\x01\x01\x2c\xde\xad")),
         ("misaddressed-dst", frame(sid, b"IOSsomeone-else", b"STATP\x01\x01\x2c\xbe\xef")),
         ("swapped-pair", frame(cid, sid, b"STATP\x01\x00\x10\xff\xff")),
+        # identifier pairs that differ from this connection's only by white space around them
+        ("nearmiss-dst-space", frame(sid, cid + b" ", b"STATP\x01\x01\x30\xde\xad")),
+        ("nearmiss-src-newline", frame(sid + b"\n", cid, b"STATP\x01\x01\x32\xbe\xef")),
+        ("nearmiss-both", frame(b" " + sid, b"\t" + cid, b"RFERR")),
         ("malformed-frame", b"<PACKT>no tags at all</PACKT>"), ("malformed-frame2", b"<PACKT><SRCCN>x</SRCCN></PACKT>"),
         ("malformed-frame3", b"<PACKT><SRCCN>" + sid + b"</SRCCN><DESCN>" + cid + b"</DESCN><DATAS>STATP\x01\x01\x2c\xaa\xbb</PACKT>"),
         # a well-addressed frame with bytes before / after it: not a frame (malformed framing, no effect)
@@ -49,10 +53,13 @@ def junk_items(rng, spa):
 
 def digest(s):
     spa = s.spa
+    if spa is None:             # the manager has dropped the connection
+        return ("no-spa", len(s.events), s.man.spa_state.name)
     return (hashlib.sha1(spa.struct.status_block).hexdigest(), len(s.events), s.man.spa_state.name)
 
 
-MISADDRESSED = {"misaddressed-statp", "misaddressed-dst", "swapped-pair", "malformed-frame", "malformed-frame2", "malformed-frame3",
+MISADDRESSED = {"nearmiss-dst-space", "nearmiss-src-newline", "nearmiss-both",
+                "misaddressed-statp", "misaddressed-dst", "swapped-pair", "malformed-frame", "malformed-frame2", "malformed-frame3",
                 "padded-nul", "padded-space", "padded-crlf", "prefixed-nul", "truncated-frame"}
 
 
@@ -135,6 +142,39 @@ def scenario(rng, rank, stalls=False, flood=0, starve=False):
         n = rng.choice([5, 20, 60])
         with_calls = rank != "seeded" and rng.random() < 0.5
         extra = []
+        # the near-miss identifier pairs arrive in every scenario (not left to the sampling below): no effect
+        s.quiesce(5)
+        before = (digest(s), ncb[0])
+        for name, data in items:
+            if name.startswith("nearmiss"):
+                s.inject(data, delay=0.01)
+        s.advance(1.1)
+        after = (digest(s), ncb[0])
+        extra.append({"k": "inert", "same": bool(after[0][0] == before[0][0] and after[1] == before[1] and after[0][2] == before[0][2]),
+                      "t": ms(s.loop.time()), "_n": next(__import__("gv.vloop", fromlist=["SEQ"]).SEQ)})
+        # the operating system reports a socket error (asyncio hands it to error_received and leaves the endpoint open)
+        # at the moment the catch-all consumer has marked an unknown datagram: that datagram is still discarded, and
+        # so is the next one, with known traffic behind it served
+        if s.spa is not None:
+            s.quiesce(5)
+            n_log = len(sc.tap.log)
+            s.inject(b"QQQQQ-unknown-1")
+            for _ in range(40):
+                s.advance(0.01)
+                if any(e["k"] == "mark" for e in sc.tap.log[n_log:]):
+                    break
+            s.spa._protocol.error_received(OSError(111, "Connection refused"))
+            s.advance(0.5)
+            sid_, cid_ = s.spa.descriptor.identifier, s.spa.client_id
+            s.inject(b"QQQQQ-unknown-2")
+            s.inject(frame(sid_, cid_, b"STATP\x01\x01\x40\x12\x34"), delay=0.02)
+            s.advance(1.5)
+        if s.spa is None:
+            # traffic that is not for this connection has made the manager drop it: the scenario ends here, judged on
+            # what was recorded
+            sc.ev.extend(extra)
+            ev = merge(sc)
+            return {"ev": ev, "rank": rank, "n": len(ev), "delivered": 0, "puts": 0, "flood": 0, "pending": []}
         for i in range(n):
             burst = rng.choice([1, 1, 2, 5])
             only_mis = rng.random() < 0.3
